@@ -26,7 +26,13 @@ Clauses (each returns the first violating connection):
   5. freshKeys      – Finished values never repeat; a resumed connection uses the master secret
                       of the original connection; a full one a master secret never seen before.
   6. freshIds       – a new session's identifier is 32 bytes long and differs from every
-                      identifier seen before in the history.
+                      identifier seen before in the history, the one offered in this very
+                      connection included: a ServerHello names the offered identifier only to
+                      resume it, so (a) a connection that an endpoint completed as NOT resumed and
+                      (b) a connection in which the offered session cannot be resumed (the server
+                      did not issue it or lost it, or its suite is no longer enabled by both
+                      sides) must not carry the offered identifier in the ServerHello — whether
+                      or not a man in the middle disturbs it afterwards.
   7. failedNotReoffered – a session that the client offered in, or that was in use (named by
                       the ServerHello) by, a connection that failed at the client is not offered
                       by any later connection (unless the harness itself copied it).
@@ -152,6 +158,14 @@ def checkOne (all before : List Conn) (i : Nat) (d : Desc) (s : Seen) : Option (
       | none => true) then
     some ("master-secret", s!"connection {i}: a full handshake re-uses an earlier master secret")
   -- 6. fresh identifiers
+  else if s.ret.isSome && s.ret == s.off && !res && (s.cOk || s.sOk) then
+    some ("session-id", s!"connection {i}: a handshake completed as not resumed, but its ServerHello names the offered identifier instead of a fresh one")
+  else if s.ret.isSome && s.ret == s.off && (match orig with
+      | some (_, os) => (match os.suite with
+          | some su => !(d.csuites.contains su && d.ssuites.contains su)
+          | none => false)
+      | none => true) then
+    some ("session-id", s!"connection {i}: the ServerHello names the offered identifier although that session cannot be resumed (not issued by server {d.server} or lost, or its suite is no longer enabled by both sides): a new session must get a fresh identifier")
   else if s.ret.isSome && s.ret != s.off && s.retLen != some 32 then
     some ("session-id", s!"connection {i}: new session identifier is not 32 bytes long")
   else if (match s.ret with
